@@ -34,6 +34,7 @@ import (
 
 	"github.com/php-any/origami/data"
 	"github.com/php-any/origami/node"
+	"github.com/php-any/origami/parser"
 	"github.com/php-any/origami/runtime"
 	"github.com/php-any/origami/utils"
 )
@@ -54,10 +55,13 @@ type P struct {
 	B    *bool   `json:"b,omitempty"`
 }
 type Got struct {
+	Type string `json:"type"` // the dynamic TYPE (main.Name for a defined type), not only its kind
 	Kind string `json:"kind"`
 	P    P      `json:"p"`
 }
 type Case struct {
+	Lits   []string `json:"lits"`   // sfunc: argument literals as script source text
+	Expect string   `json:"expect"` // sfunc: literal the result is compared with by ===
 	K      string   `json:"k"`
 	Params []string `json:"params"`
 	Ret    string   `json:"ret"`
@@ -91,7 +95,17 @@ var (
 	seq  int
 )
 
+// defined (named) types: same kinds, different types — reflect.Call needs the exact type
+type Name string
+type Flag bool
+type Celsius float64
+type Level int
+type Small int8
+type Ratio float32
+
 var kinds = map[string]reflect.Type{
+	"Name": reflect.TypeOf(Name("")), "Flag": reflect.TypeOf(Flag(false)), "Celsius": reflect.TypeOf(Celsius(0)),
+	"Level": reflect.TypeOf(Level(0)), "Small": reflect.TypeOf(Small(0)), "Ratio": reflect.TypeOf(Ratio(0)),
 	"string": reflect.TypeOf(""), "bool": reflect.TypeOf(true),
 	"int": reflect.TypeOf(int(0)), "int8": reflect.TypeOf(int8(0)), "int16": reflect.TypeOf(int16(0)),
 	"int32": reflect.TypeOf(int32(0)), "int64": reflect.TypeOf(int64(0)),
@@ -159,7 +173,7 @@ func unmk(g data.GetValue) *V {
 
 // capture a Go value: its dynamic kind and payload
 func capture(rv reflect.Value) Got {
-	g := Got{Kind: rv.Kind().String()}
+	g := Got{Kind: rv.Kind().String(), Type: rv.Type().String()}
 	switch rv.Kind() {
 	case reflect.String:
 		s := rv.String()
@@ -215,7 +229,7 @@ func build(t reflect.Type, p *P) reflect.Value {
 }
 
 func oracleFor(vs []V) *Oracle {
-	o := &Oracle{PF: [][2]string{}, FF: [][2]string{}, FG: [][2]string{}, F32: [][2]string{}}
+	o := &Oracle{PF: [][2]string{}, FF: [][2]string{}, FG: [][2]string{}, F32: [][2]string{{bits(0), bits(0)}}} // 0: a missing argument is a null slot
 	for _, v := range vs {
 		switch v.K {
 		case "str":
@@ -292,6 +306,31 @@ func (t *T) Mix(a int, b float64, c string) string {
 	return build(kinds["string"], tret).Interface().(string)
 }
 func (t *T) None() { rec() }
+
+// c17_ok: native function receiving the result of `f(...) === literal`
+var (
+	okSeen, okVal bool
+	uncaught      int
+	sparser       *parser.Parser
+)
+
+type okFn struct{}
+
+func (okFn) Call(c data.Context) (data.GetValue, data.Control) {
+	v, _ := c.GetIndexValue(0)
+	okSeen = true
+	if b, ok := v.(*data.BoolValue); ok {
+		okVal = b.Value
+	}
+	return nil, nil
+}
+func (okFn) GetName() string { return "c17_ok" }
+func (okFn) GetParams() []data.GetValue {
+	return []data.GetValue{node.NewParameter(nil, "v", 0, nil, nil)}
+}
+func (okFn) GetVariables() []data.Variable {
+	return []data.Variable{node.NewVariable(nil, "v", 0, data.NewBaseType("mixed"))}
+}
 
 func generic(t string, c data.Context) (interface{}, error) {
 	switch t {
@@ -381,6 +420,52 @@ func runCase(c Case) (o Obs) {
 		res.Got = got
 		res.Orc = oracleFor(c.Args)
 		return res
+	case "sfunc":
+		// the call written as SCRIPT text: c17_ok(c17fN(<literals>) === <literal>);  (lexer, parser, call node)
+		in := make([]reflect.Type, len(c.Params))
+		for i, p := range c.Params {
+			in[i] = kinds[p]
+		}
+		var out []reflect.Type
+		if c.Ret != "" {
+			out = []reflect.Type{kinds[c.Ret]}
+		}
+		fn := reflect.MakeFunc(reflect.FuncOf(in, out, false), func(args []reflect.Value) []reflect.Value {
+			for _, a := range args {
+				got = append(got, capture(a))
+			}
+			if c.Ret == "" {
+				return nil
+			}
+			return []reflect.Value{build(kinds[c.Ret], c.RetV)}
+		})
+		seq++
+		name := "c17s" + strconv.Itoa(seq)
+		if ctl := vm.RegisterFunction(name, fn.Interface()); ctl != nil {
+			return Obs{Out: "panic", Msg: "register: " + ctl.AsString()}
+		}
+		okSeen, okVal = false, false
+		uncaught = 0
+		src := "c17_ok(" + name + "(" + strings.Join(c.Lits, ", ") + ") === " + c.Expect + ");\n"
+		prog, acl := sparser.ParseString(src, "c17s.zy")
+		if acl != nil {
+			return Obs{Out: "panic", Msg: "parse: " + acl.AsString()}
+		}
+		sc := vm.CreateContext(sparser.GetVariables())
+		_, ctl := prog.GetValue(sc)
+		res := Obs{Got: got, Orc: oracleFor(c.Args)}
+		switch {
+		case ctl != nil || uncaught > 0:
+			res.Out = "throw"
+		case okSeen && okVal:
+			res.Out = "same"
+		case okSeen:
+			res.Out = "different"
+		default:
+			res.Out = "panic"
+			res.Msg = "c17_ok not reached"
+		}
+		return res
 	case "method":
 		cls, ok := vm.GetClass("C17T")
 		if !ok {
@@ -425,6 +510,12 @@ func main() {
 	v, ps := vrun.NewVM()
 	vm = v
 	ctx = vm.CreateContext(ps.GetVariables())
+	sparser = ps
+	vm.SetThrowControl(func(acl data.Control) { uncaught++ })
+	if ctl := vm.AddFunc(okFn{}); ctl != nil {
+		fmt.Fprintln(os.Stderr, "setup c17_ok:", ctl.AsString())
+		os.Exit(2)
+	}
 	if ctl := vm.RegisterReflectClass("C17T", &T{}); ctl != nil {
 		fmt.Fprintln(os.Stderr, "register class:", ctl.AsString())
 		os.Exit(2)
